@@ -282,4 +282,17 @@ theorem select_echo_overflow_clean (a : Acc) (func seq frameId : Nat) (hs : List
               { acc := a, cap := a.1.cfg.sol - 4 })).acc.1.select) :=
   @Dnp3.Proofs.C12.select_echo_overflow_clean a func seq frameId hs raw hf hall hov
 
+/-- **freeze_at_time_rejection_flagged**: the response of FREEZE_AT_TIME (function 11) carries the request's
+    sequence number and every IIN2 bit with which ANY of its headers was rejected — at any position, whatever
+    follows it (`freezeAtRej`: PARAMETER_ERROR for a time-and-interval object g50v2 whose count is not 1 and for a
+    header with no valid g50v2 before it, the freeze verdict of the header otherwise) -/
+theorem freeze_at_time_rejection_flagged (a : Acc) (seq frameId : Nat) (pre : List ObjHdr) (h : ObjHdr)
+    (post : List ObjHdr) (raw : List Nat) (m : Nat) (hrej : HasBits (freezeAtRej (pre.any isFreezeTiming) h) m) :
+    ∃ a' r, handleNonRead a 11 seq frameId (pre ++ h :: post) raw = some (a', some r) ∧ r.ctrl.seq = seq ∧
+      HasBits r.iin2 m :=
+  @Dnp3.Proofs.C12.rejection_flagged_freeze_at_time_nonread a seq frameId pre h post raw m hrej
+
+-- the hypothesis is satisfiable: a rejected analog header between a valid g50v2 and an accepted counter header
+example : freezeAtRej (([⟨50, 2, 7, 1, 0, []⟩] : List ObjHdr).any isFreezeTiming) ⟨30, 0, 6, 0, 0, []⟩ = iin2NoFunc := by decide
+
 end Dnp3.Props.C12
